@@ -1,5 +1,5 @@
 """C19 -- layout regions rotate and extract consistently with the arrays they index."""
-import itertools
+import itertools, math, copy
 import numpy as np
 from harness.common import cz, clist, ctup, copt, cres, call_res, import_aa
 
@@ -10,21 +10,35 @@ PROPS = "Props/C19.v"
 COQ_CHECK = ("Model.C19x", "check")
 COQ_FALLBACK = ("Model.C19", "spec_ok")
 COQ_IMPORTS = "From PAV Require Import Model.C19."
-SHARD = 400
+SHARD = 1000
 RULE = ("exhaustive enumeration (see exhaustive_subspace) of constructor arguments, sub-region pixel ranges, 1-D "
         "extraction quadruples, 2-D (region, window) pairs, (shape, region, corner) rotations, each run through the "
         "public classes (aa.Region1D/2D, aa.Layout2D, Array2D.original_orientation) and the util functions; plus random "
-        "larger shapes. A case is non-trivial unless it is a bare constructor call; distinct = distinct JSON input.")
+        "larger shapes; plus HISTORIES on one object: (ahist) one natively stored Array2D / ndarray that is read "
+        "(original_orientation, Layout2D.original_orientation_from, util), written in place (arr[region.slice] = v, "
+        "arr[boolean mask] = v), whose returned arrays are edited by the caller, whose header corner is changed, which is "
+        "replaced by derived objects (copy, .native, .slim.native, +0, views, Fortran order) and re-read, every "
+        "observation compared in Coq with the model run on the CURRENT contents; (lsess) one Layout2D reused for "
+        "several rotations / extractions / array extractions with user edits of its attributes in between; (rsess) one "
+        "Region2D / Region1D reused for many sub-region calls, also after reg.region is reassigned, and results used as "
+        "receivers.  Array values include tiny / huge / non-finite / tied values (compared by value through an "
+        "injective labelling).  A case is non-trivial unless it is a bare constructor call; distinct = distinct JSON input.")
 EXHAUSTIVE = {
     "quick": "constructors on [-1..3]^2 / [-1..2]^4; sub-regions of every region in a 3x3 frame with pixel ranges in [-1..3]; "
              "1-D extraction on all quadruples in [0..6]; 2-D extraction: all (region, window) pairs in a 3x3 frame; "
-             "rotation: all shapes <= 4x4, all regions, 4 corners (+2 invalid corners)",
-    "thorough": "as quick with frames 4x4 for extraction / sub-regions and all shapes <= 6x6 for rotation, 1-D on [0..9]",
+             "rotation: all shapes <= 4x4, all regions, 4 corners (+2 invalid corners); read/edit/re-read history "
+             "patterns: 7 shapes x 4 corners x 3 object kinds x 13 patterns; call / reg.region = r2 / same call for "
+             "every 9th ordered pair of regions in a 3x3 frame (every 3rd pair in 1-D on [0..5]); large coordinates (up to 2^40, "
+             "python ints and numpy int64) for every region-valued operation",
+    "thorough": "as quick with frames 4x4 for extraction / sub-regions and all shapes <= 6x6 for rotation, 1-D on [0..9]; "
+                "history patterns on 11 shapes x 4 region choices; every 2nd ordered pair of regions for the re-assigned-region sessions",
 }
 TRUSTED = ["py2v translator (coq/Gen/Gen_layout.v regenerated from autoarray/layout/region.py and layout_util.py on every run; "
            "its pinned-glue assumptions: AbstractRegion.__init__/__getitem__ literal text)",
            "correspondence harness harness/c19.py (also runs every generated definition against the Python function)",
            "numpy slicing semantics a[y0:y1, x0:x1] = firstn/skipn (Model.C19.slice2), checked by the KCommute cases"]
+TRUSTED += ["numpy slice assignment a[y0:y1, x0:x1] = v = Model.C19.fill2 (proved equal to the pixel-wise fill_spec), exercised by the ahist cases",
+            "the harness's own bookkeeping of the tracked layout / region state in lsess / rsess (plain tuples)"]
 ASSUMPTIONS = ["array contents are arbitrary (theorems are polymorphic in the element type); correspondence uses distinct integers",
                "Layout2D / Array2D glue is covered by correspondence only"]
 
@@ -102,12 +116,52 @@ def gen_inputs(tier, rng):
         yield {"op": "commute", "m": arr, "r": [y0, y1, x0, x1], "c": list(c), "via": rng.choice(["slice", "extract"])}
         ey0 = rng.randint(0, h - 1); ey1 = rng.randint(ey0 + 1, h); ex0 = rng.randint(0, w - 1); ex1 = rng.randint(ex0 + 1, w)
         yield {"op": "extract", "o": [y0, y1, x0, x1], "e": [ey0, ey1, ex0, ex1], "via": rng.choice(slots), "shape": [h, w]}
+    yield from gen_histories(tier, rng)
 
 def reg_out(x):
     """canonical form of a result that is a region object / tuple"""
     if x[0] == "raise": return x
     v = x[1]
     return ("ok", None if v is None else tuple(int(t) for t in (v.region if hasattr(v, "region") else v)))
+
+REGION_OPS = ("front1", "trail1", "parfront", "serfront", "partrail", "sertrail", "parfull", "serroe")
+def region_op(obj, self_t, inp):
+    """one sub-region call on the GIVEN Region object (tracked tuple self_t) -> (canonical result, Coq case)"""
+    op = inp["op"]
+    t2 = lambda p: None if p is None else tuple(p)
+    if op == "front1":
+        out = reg_out(call_res(obj.front_region_from, pixels=t2(inp["p"]), pixels_from_end=inp["e"]))
+        coq = f"KFront1 {creg(self_t)} {copt(inp['p'], creg)} {copt(inp['e'], cz)} {cres(out, creg)}"
+    elif op == "trail1":
+        out = reg_out(call_res(obj.trailing_region_from, pixels=t2(inp["p"])))
+        coq = f"KTrail1 {creg(self_t)} {creg(inp['p'])} {cres(out, creg)}"
+    elif op in ("parfront", "serfront"):
+        f = obj.parallel_front_region_from if op == "parfront" else obj.serial_front_region_from
+        out = reg_out(call_res(f, pixels=t2(inp["p"]), pixels_from_end=inp["e"]))
+        k = "KParFront" if op == "parfront" else "KSerFront"
+        coq = f"{k} {creg(self_t)} {copt(inp['p'], creg)} {copt(inp['e'], cz)} {cres(out, creg)}"
+    elif op in ("partrail", "sertrail"):
+        f = obj.parallel_trailing_region_from if op == "partrail" else obj.serial_trailing_region_from
+        out = reg_out(call_res(f, pixels=t2(inp["p"])))
+        k = "KParTrail" if op == "partrail" else "KSerTrail"
+        coq = f"{k} {creg(self_t)} {creg(inp['p'])} {cres(out, creg)}"
+    elif op == "parfull":
+        out = reg_out(call_res(obj.parallel_full_region_from, shape_2d=tuple(inp["sh"])))
+        coq = f"KParFull {creg(self_t)} {creg(inp['sh'])} {cres(out, creg)}"
+    elif op == "serroe":
+        out = reg_out(call_res(obj.serial_towards_roe_full_region_from, shape_2d=tuple(inp["sh"]), pixels=t2(inp["p"])))
+        coq = f"KSerRoe {creg(self_t)} {creg(inp['sh'])} {creg(inp['p'])} {cres(out, creg)}"
+    else:
+        raise ValueError(op)
+    return out, coq
+
+def raw_call(obj, d):
+    """the same call once more, returning the region OBJECT (to be used as the receiver of later calls)"""
+    return getattr(obj, SUBNAME[d["op"]])(**subargs(d))
+
+def npi(t, on):
+    """the same coordinates as numpy int64 scalars (what a caller gets from array.shape arithmetic)"""
+    return t if (t is None or not on) else tuple(np.int64(x) for x in t)
 
 def run_case(inp):
     aa = import_aa()
@@ -122,41 +176,16 @@ def run_case(inp):
     elif op == "init2":
         out = reg_out(call_res(aa.Region2D, tuple(inp["r"])))
         coq = f"KInit2 {creg(inp['r'])} {cres(out, creg)}"
-    elif op in ("front1", "trail1"):
-        s = aa.Region1D(tuple(inp["s"]))
-        if op == "front1":
-            out = reg_out(call_res(s.front_region_from, pixels=t2(inp["p"]), pixels_from_end=inp["e"]))
-            coq = f"KFront1 {creg(inp['s'])} {copt(inp['p'], creg)} {copt(inp['e'], cz)} {cres(out, creg)}"
-        else:
-            out = reg_out(call_res(s.trailing_region_from, pixels=t2(inp["p"])))
-            coq = f"KTrail1 {creg(inp['s'])} {creg(inp['p'])} {cres(out, creg)}"
-    elif op in ("parfront", "serfront"):
-        s = aa.Region2D(tuple(inp["s"]))
-        f = s.parallel_front_region_from if op == "parfront" else s.serial_front_region_from
-        out = reg_out(call_res(f, pixels=t2(inp["p"]), pixels_from_end=inp["e"]))
-        k = "KParFront" if op == "parfront" else "KSerFront"
-        coq = f"{k} {creg(inp['s'])} {copt(inp['p'], creg)} {copt(inp['e'], cz)} {cres(out, creg)}"
-    elif op in ("partrail", "sertrail"):
-        s = aa.Region2D(tuple(inp["s"]))
-        f = s.parallel_trailing_region_from if op == "partrail" else s.serial_trailing_region_from
-        out = reg_out(call_res(f, pixels=t2(inp["p"])))
-        k = "KParTrail" if op == "partrail" else "KSerTrail"
-        coq = f"{k} {creg(inp['s'])} {creg(inp['p'])} {cres(out, creg)}"
-    elif op == "parfull":
-        s = aa.Region2D(tuple(inp["s"]))
-        out = reg_out(call_res(s.parallel_full_region_from, shape_2d=tuple(inp["sh"])))
-        coq = f"KParFull {creg(inp['s'])} {creg(inp['sh'])} {cres(out, creg)}"
-    elif op == "serroe":
-        s = aa.Region2D(tuple(inp["s"]))
-        out = reg_out(call_res(s.serial_towards_roe_full_region_from, shape_2d=tuple(inp["sh"]), pixels=t2(inp["p"])))
-        coq = f"KSerRoe {creg(inp['s'])} {creg(inp['sh'])} {creg(inp['p'])} {cres(out, creg)}"
+    elif op in REGION_OPS:
+        cls = aa.Region1D if op in ("front1", "trail1") else aa.Region2D
+        out, coq = region_op(cls(tuple(inp["s"])), inp["s"], inp)
     elif op == "x0x1":
         a = inp["a"]
         r = layout_util.x0x1_after_extraction(*a)
         out = [None if x is None else int(x) for x in r]
         coq = f"KX0X1 {cz(a[0])} {cz(a[1])} {cz(a[2])} {cz(a[3])} ({copt(out[0], cz)}, {copt(out[1], cz)})"
     elif op == "extract":
-        o, e, via = t2(inp["o"]), tuple(inp["e"]), inp["via"]
+        o, e, via = npi(t2(inp["o"]), inp.get("npint")), npi(tuple(inp["e"]), inp.get("npint")), inp["via"]
         if via == "util":
             out = reg_out(call_res(layout_util.region_after_extraction, original_region=o, extraction_region=e))
         else:
@@ -166,7 +195,7 @@ def run_case(inp):
             out = reg_out(call_res(f))
         coq = f"KExtract {copt(o, creg)} {creg(e)} {cres(out, lambda v: copt(v, creg))}"
     elif op == "rotregion":
-        r, s, c, via = t2(inp["r"]), tuple(inp["s"]), tuple(inp["c"]), inp["via"]
+        r, s, c, via = npi(t2(inp["r"]), inp.get("npint")), npi(tuple(inp["s"]), inp.get("npint")), tuple(inp["c"]), inp["via"]
         if via == "util" or r is None:
             out = reg_out(call_res(layout_util.rotate_region_via_roe_corner_from, region=r, shape_native=s, roe_corner=c))
         elif via == "rotated_from_roe_corner":
@@ -205,6 +234,521 @@ def run_case(inp):
         lay = aa.Layout2D(shape_2d=shape, serial_overscan=r).new_rotated_from(roe_corner=c).new_rotated_from(roe_corner=c)
         out = [[[int(x) for x in row] for row in np.asarray(m2)], [int(x) for x in lay.serial_overscan.region]]
         coq = f"KTwice {carr(inp['m'])} {creg(r)} {creg(c)} ({carr(out[0])}, {creg(out[1])})"
+    elif op == "ahist": return run_ahist(aa, inp)
+    elif op == "lsess": return run_lsess(aa, inp)
+    elif op == "rsess": return run_rsess(aa, inp)
     else:
         raise ValueError(op)
     return {"coq": "(" + coq + ")", "out": out, "py_ok": None, "nontrivial": nontrivial, "kind": op}
+
+# =====================================================================================================
+# HISTORIES: one object, several operations, user edits in between.  Every observation is compared (in Coq)
+# with the model evaluated on the CURRENT contents / state; nothing is assumed about fresh objects.
+# =====================================================================================================
+CORNERS = [(1, 0), (0, 0), (1, 1), (0, 1)]
+SPECIALS = ["0.0", "-0.0", "1e-09", "-1e-12", "5e-324", "1e-300", "1e+300", "-1e+300", "9007199254740992.0",
+            "0.1", "1.5", "-2.5", "nan", "inf", "-inf", "16777217.0", "1e-08"]
+
+def enc(x):
+    """float -> JSON-able, exactly reversible by dec (integers stay integers, the rest goes through repr)"""
+    x = float(x)
+    if x == x and abs(x) < 1e15 and x == int(x) and not (x == 0 and math.copysign(1, x) < 0): return int(x)
+    return repr(x)
+def dec(x): return float(x)
+
+class Lab:
+    """injective labelling value -> Z (the theorems are polymorphic in the element type): integers are themselves,
+    every other value (fractions, tiny, huge, nan, +-inf) gets its own label; equal values share a label"""
+    def __init__(self): self.d = {}
+    def __call__(self, x):
+        x = float(x)
+        if x == x and abs(x) < 1e15 and x == int(x): return int(x)
+        k = "nan" if x != x else repr(x)
+        if k not in self.d: self.d[k] = 10 ** 15 + len(self.d)
+        return self.d[k]
+    def arr(self, a):
+        a = np.asarray(a)
+        if a.ndim != 2: raise ValueError(f"expected a 2D array, got shape {a.shape}")
+        return [[self(x) for x in row] for row in a]
+
+def clay(st): return ctup([creg(st[0]), creg(st[1]), copt(st[2], creg), copt(st[3], creg), copt(st[4], creg)])
+def regt(x):
+    """tuple of a Region2D (possibly wrapping another Region2D) / tuple / None"""
+    return None if x is None else tuple(int(t) for t in x)
+def lay_state(l):
+    return (tuple(int(t) for t in l.shape_2d), tuple(int(t) for t in l.original_roe_corner),
+            regt(l.parallel_overscan), regt(l.serial_prescan), regt(l.serial_overscan))
+def lay_out(x):
+    return x if x[0] == "raise" else ("ok", lay_state(x[1]))
+def plain(a):
+    """the 2D ndarray held by a returned object (ndarray, or Array2D stored natively or slim)"""
+    if isinstance(a, np.ndarray): return a
+    return np.asarray(a.native if a.ndim == 1 else a)
+def edit_in_place(a, r, v):
+    """the user's in-place edit a[y0:y1, x0:x1] = v of a RETURNED array, whatever its storage"""
+    y0, y1, x0, x1 = r
+    if isinstance(a, np.ndarray) or a.ndim == 2:
+        a[y0:y1, x0:x1] = v
+    else:                      # Array2D stored slim (no mask): 1D index
+        w = a.shape_native[1]
+        for y in range(y0, y1):
+            for x in range(x0, x1): a[y * w + x] = v
+def inside(shape, r):
+    return 0 <= r[0] < r[1] <= shape[0] and 0 <= r[2] < r[3] <= shape[1]
+def same(a, b):
+    a, b = np.asarray(a), np.asarray(b)
+    return a.shape == b.shape and bool(np.array_equal(a, b, equal_nan=True))
+
+class Pool:
+    """Region2D objects are REUSED: one object per distinct tuple for the whole history"""
+    def __init__(self, aa): self.aa, self.d = aa, {}
+    def __call__(self, r):
+        r = tuple(r)
+        if r not in self.d: self.d[r] = self.aa.Region2D(r)
+        return self.d[r]
+    def intact(self):
+        return all(regt(o) == k for k, o in self.d.items())
+
+def result(coqs, out, bad, kind):
+    return {"coq": "(" + coqs[0] + ")", "extra_coq": ["(" + c + ")" for c in coqs[1:]], "out": out,
+            "py_ok": False if bad else None, "detail": "; ".join(bad) if bad else None, "nontrivial": True, "kind": kind}
+
+# ----------------------------------------------------------------------------------------------- ahist
+def cstep(st, lab):
+    k = st[0]
+    if k == "read": return "ARead"
+    if k == "slice": return f"ASlice {creg(st[1])}"
+    if k == "write": return f"AWrite {creg(st[1])} {cz(lab(dec(st[2])))}"
+    if k == "edit": return f"AEditOut {creg(st[1])} {cz(lab(dec(st[2])))}"
+    if k == "last": return "ALast"
+    if k == "corner": return f"ACorner {creg(st[1])}"
+    if k == "derive": return "ADerive"
+    raise ValueError(k)
+
+def derive(aa, obj, how):
+    """an object derived from obj that holds the same contents"""
+    if isinstance(obj, np.ndarray):
+        if how == "copy": return obj.copy()
+        if how == "view": return obj[:]
+        if how == "fortran": return np.asfortranarray(obj)
+        if how == "window":           # a window of a bigger array (non-contiguous strides)
+            big = np.full((obj.shape[0] + 2, obj.shape[1] + 3), -77.0); big[1:-1, 2:-1] = obj
+            return big[1:-1, 2:-1]
+        if how == "tt": return obj.T.copy().T
+        return obj
+    if how == "copy": return obj.copy()
+    if how == "copy.copy": return copy.copy(obj)
+    if how == "deepcopy": return copy.deepcopy(obj)
+    if how == "plus0": return obj + 0.0
+    if how == "times1": return 1.0 * obj
+    if how == "view": return obj[:]
+    if how == "with_new_array": return obj.with_new_array(np.array(obj))
+    if obj.mask.is_all_false:       # these re-apply the mask: contents are kept only without masked pixels
+        if how == "native": return obj.native
+        if how == "slim.native": return obj.slim.native
+        if how == "ctor": return aa.Array2D(values=obj, mask=obj.mask, header=obj.header, store_native=True)
+        if how == "apply_mask": return obj.apply_mask(mask=obj.mask).native
+    return obj.copy()
+
+def run_ahist(aa, inp):
+    from autoarray.layout import layout_util
+    lab = Lab(); pool = Pool(aa); bad = []
+    vals = np.array([[dec(x) for x in row] for row in inp["m"]], dtype=float)
+    c = tuple(inp["c"]); kind = inp["kind"]
+    if kind == "nd":
+        obj = vals.copy()
+        if inp.get("dtype") == "int": obj = obj.astype(np.int64)
+    else:
+        mk = inp.get("mask")
+        mask = (aa.Mask2D(mask=np.array(mk, dtype=bool), pixel_scales=1.0) if mk is not None
+                else aa.Mask2D.all_false(shape_native=vals.shape, pixel_scales=1.0))
+        if kind == "array2d":
+            obj = aa.Array2D(values=vals.copy(), mask=mask, header=aa.Header(original_roe_corner=c), store_native=True)
+        elif kind == "no_mask.native":     # derived: stored slim, then mapped to native
+            obj = aa.Array2D.no_mask(values=vals.copy(), pixel_scales=1.0, header=aa.Header(original_roe_corner=c)).native
+        else:                              # "sum": result of arithmetic on two arrays
+            h = aa.Header(original_roe_corner=c)
+            a1 = aa.Array2D(values=vals - 1.0, mask=mask, header=h, store_native=True)
+            obj = a1 + aa.Array2D(values=np.ones(vals.shape), mask=mask, header=h, store_native=True)
+    m0 = np.array(obj, dtype=float)          # the contents the history starts from (construction is not C19's business)
+    lay = aa.Layout2D(shape_2d=tuple(vals.shape), original_roe_corner=c)     # ONE layout object, reused
+    last = None; kept = []; outs = []; steps = []
+    def observe(o):
+        nonlocal last
+        last = o
+        if o is None: outs.append(None); return
+        a = lab.arr(plain(o)); outs.append(a); kept.append((o, np.array(plain(o), dtype=float)))
+    for st in inp["steps"]:
+        k = st[0]
+        if k == "read":
+            via = st[1]
+            if via == "prop" and kind != "nd": o = obj.original_orientation
+            elif via == "layout": o = lay.original_orientation_from(array=obj)
+            else: o = layout_util.rotate_array_via_roe_corner_from(array=np.asarray(obj), roe_corner=c)
+            observe(o)
+        elif k == "slice":
+            r, via = tuple(st[1]), st[2]
+            if via in ("po", "so") and kind != "nd":
+                if via == "po":
+                    lay.parallel_overscan = pool(r); o = lay.extract_parallel_overscan_array_2d_from(array=obj)
+                else:
+                    lay.serial_overscan = pool(r); o = lay.extract_serial_overscan_array_from(array=obj)
+            else:
+                o = np.array(np.asarray(obj)[pool(r).slice])     # a copy: a numpy view would legitimately alias
+            observe(o)
+        elif k == "write":
+            r, v, via = tuple(st[1]), dec(st[2]), st[3]
+            if via == "region": obj[pool(r).slice] = v
+            elif via == "where" and kind != "nd":
+                key = np.zeros(obj.shape, dtype=bool); key[r[0]:r[1], r[2]:r[3]] = True
+                obj[key] = v
+            else: obj[r[0]:r[1], r[2]:r[3]] = v
+        elif k == "edit":
+            if last is not None:
+                edit_in_place(last, tuple(st[1]), dec(st[2]))
+                kept[-1] = (last, None)
+            observe(last)
+        elif k == "last":
+            observe(last) if last is not None else outs.append(None)
+        elif k == "corner":
+            c = tuple(st[1]); lay.original_roe_corner = c
+            if kind != "nd": obj.header.original_roe_corner = c
+        elif k == "derive":
+            obj = derive(aa, obj, st[1])
+        else: raise ValueError(k)
+        steps.append(cstep(st, lab))
+    # arrays returned earlier must still hold what they held when they were returned / last edited
+    seen = {}
+    for o, snap in kept: seen[id(o)] = (o, snap)
+    for o, snap in seen.values():
+        if snap is not None and not same(plain(o), snap): bad.append("an array returned earlier changed afterwards")
+    if not pool.intact(): bad.append("a Region2D object changed")
+    coq = (f"KHistA {carr(lab.arr(m0))} {creg(inp['c'])} {clist(steps)} "
+           f"{clist([copt(o, carr) for o in outs])}")
+    return result([coq], outs, bad, "ahist")
+
+# ----------------------------------------------------------------------------------------------- lsess
+SLOTS = ["parallel_overscan", "serial_prescan", "serial_overscan"]
+def run_lsess(aa, inp):
+    from autoarray.layout import layout_util
+    lab = Lab(); pool = Pool(aa); bad = []; coqs = []; out = []
+    shape = tuple(inp["shape"]); st = [shape, tuple(inp["c"])] + [None if r is None else tuple(r) for r in inp["regions"]]
+    mk = lambda r, i: None if r is None else (pool(r) if (i + len(inp["steps"])) % 2 else tuple(r))
+    lay = aa.Layout2D(shape_2d=shape, original_roe_corner=st[1], parallel_overscan=mk(st[2], 0),
+                      serial_prescan=mk(st[3], 1), serial_overscan=mk(st[4], 2))     # ONE layout object
+    vals = np.array([[dec(x) for x in row] for row in inp["m"]], dtype=float)         # harness's private copy
+    nd = vals.copy()
+    arr = aa.Array2D(values=vals.copy(), mask=aa.Mask2D.all_false(shape_native=vals.shape, pixel_scales=1.0),
+                     store_native=bool(inp.get("store_native", True)))
+    last = None
+    def check_state(what):
+        if lay_state(lay) != tuple(st): bad.append(f"the Layout2D changed during {what}: {lay_state(lay)} != {tuple(st)}")
+    for sp in inp["steps"]:
+        k = sp[0]
+        if k in ("rot", "into_rot", "classrot"):
+            c = tuple(sp[1])
+            if k == "classrot":
+                o = call_res(aa.Layout2D.rotated_from_roe_corner, roe_corner=c, shape_native=lay.shape_2d,
+                             parallel_overscan=lay.parallel_overscan, serial_prescan=lay.serial_prescan,
+                             serial_overscan=lay.serial_overscan)
+            else:
+                o = call_res(lay.new_rotated_from, roe_corner=c)
+            oo = lay_out(o); out.append(oo)
+            coqs.append(f"KLayRot {clay(st)} {creg(c)} {cres(oo, clay)}")
+            check_state(k)
+            if k == "into_rot" and o[0] == "ok": lay = o[1]; st = list(oo[1])
+        elif k in ("ext", "into_ext"):
+            e = tuple(sp[1])
+            o = call_res(lay.layout_extracted_from, extraction_region=e if len(sp) < 3 else pool(e))
+            oo = lay_out(o); out.append(oo)
+            coqs.append(f"KLayExt {clay(st)} {creg(e)} {cres(oo, clay)}")
+            check_state(k)
+            if k == "into_ext" and o[0] == "ok": lay = o[1]; st = list(oo[1])
+        elif k == "set":
+            i = int(sp[1]); r = None if sp[2] is None else tuple(sp[2])
+            setattr(lay, SLOTS[i], None if r is None else pool(r)); st[2 + i] = r
+        elif k == "shape":
+            lay.shape_2d = tuple(sp[1]); st[0] = tuple(sp[1])
+        elif k == "corner":
+            lay.original_roe_corner = tuple(sp[1]); st[1] = tuple(sp[1])
+        elif k == "slice":
+            i = int(sp[1]); r = st[2 + i]
+            if i == 1 or r is None or not inside(vals.shape, r): continue
+            f = lay.extract_parallel_overscan_array_2d_from if i == 0 else lay.extract_serial_overscan_array_from
+            last = f(array=arr)
+            o = lab.arr(plain(last)); out.append(o)
+            coqs.append(f"KSlice {carr(lab.arr(vals))} {creg(r)} {carr(o)}")
+            check_state(k)
+        elif k == "orient":
+            src = nd if sp[1] == "nd" else (arr if arr.ndim == 2 else arr.native)
+            last = lay.original_orientation_from(array=src)
+            o = None if last is None else lab.arr(plain(last)); out.append(o)
+            coqs.append(f"KRotArray {carr(lab.arr(vals))} {creg(st[1])} {copt(o, carr)}")
+            check_state(k)
+        elif k == "edit":
+            if last is not None and inside(plain(last).shape, tuple(sp[1])): edit_in_place(last, tuple(sp[1]), dec(sp[2]))
+        elif k == "write":
+            r, v = tuple(sp[1]), dec(sp[2]); sl = np.s_[r[0]:r[1], r[2]:r[3]]
+            vals[sl] = v; nd[pool(r).slice] = v; edit_in_place(arr, r, v)
+        elif k == "utilrot":
+            i = int(sp[1]); c = tuple(sp[2])
+            o = reg_out(call_res(layout_util.rotate_region_via_roe_corner_from, region=getattr(lay, SLOTS[i]),
+                                 shape_native=lay.shape_2d, roe_corner=c)); out.append(o)
+            coqs.append(f"KRotRegion {copt(st[2 + i], creg)} {creg(st[0])} {creg(c)} {cres(o, lambda v: copt(v, creg))}")
+            check_state(k)
+        elif k == "regop":
+            i = int(sp[1]); obj = getattr(lay, SLOTS[i])
+            if obj is None: continue
+            o, cq_ = region_op(obj, st[2 + i], sp[2]); out.append(o); coqs.append(cq_)
+            check_state(k)
+        else: raise ValueError(k)
+        # the arrays handed to the layout are still what the harness thinks they are
+        if not same(nd, vals) or not same(plain(arr), vals):
+            bad.append(f"an input array changed during {k}"); nd = vals.copy()
+    if not pool.intact(): bad.append("a Region2D object changed")
+    full = (0, vals.shape[0], 0, vals.shape[1])
+    coqs.append(f"KSlice {carr(lab.arr(vals))} {creg(full)} {carr(lab.arr(plain(arr)))}")
+    return result(coqs, out, bad, "lsess")
+
+# ----------------------------------------------------------------------------------------------- rsess
+def run_rsess(aa, inp):
+    lab = Lab(); bad = []; coqs = []; out = []
+    dim = inp["dim"]; cur = tuple(inp["r"])
+    reg = (aa.Region1D if dim == 1 else aa.Region2D)(npi(cur, inp.get("npint")))          # ONE region object
+    vals = np.array([[dec(x) for x in row] for row in inp["m"]], dtype=float) if inp.get("m") else None
+    for sp in inp["steps"]:
+        k = sp[0]
+        if k in ("call", "into"):
+            o, cq_ = region_op(reg, cur, sp[1]); out.append(o); coqs.append(cq_)
+            if regt(reg) != cur: bad.append(f"the region changed during {sp[1]['op']}: {regt(reg)} != {cur}")
+            if k == "into" and o[0] == "ok":        # the RESULT becomes the receiver of the following calls
+                reg = raw_call(reg, sp[1]); cur = tuple(o[1])
+        elif k == "setregion":
+            cur = tuple(sp[1]); reg.region = npi(cur, inp.get("npint"))
+        elif k == "slice":                            # reg.slice on an array
+            sl = vals[reg.slice] if dim == 2 else vals[:, reg.slice]
+            r4 = cur if dim == 2 else (0, vals.shape[0], cur[0], cur[1])
+            o = lab.arr(sl); out.append(o)
+            coqs.append(f"KSlice {carr(lab.arr(vals))} {creg(r4)} {carr(o)}")
+        elif k == "state":
+            o = ("ok", regt(reg)); out.append(o)
+            coqs.append((f"KInit1 {creg(cur)} {cres(o, creg)}" if dim == 1 else f"KInit2 {creg(cur)} {cres(o, creg)}"))
+        else: raise ValueError(k)
+    o = ("ok", regt(reg)); coqs.append((f"KInit1 {creg(cur)} {cres(o, creg)}" if dim == 1 else f"KInit2 {creg(cur)} {cres(o, creg)}"))
+    return result(coqs, out, bad, "rsess")
+
+SUBNAME = {"front1": "front_region_from", "trail1": "trailing_region_from", "parfront": "parallel_front_region_from",
+           "serfront": "serial_front_region_from", "partrail": "parallel_trailing_region_from",
+           "sertrail": "serial_trailing_region_from", "parfull": "parallel_full_region_from",
+           "serroe": "serial_towards_roe_full_region_from"}
+def subargs(d):
+    t2 = lambda p: None if p is None else tuple(p)
+    op = d["op"]
+    if op in ("front1", "parfront", "serfront"): return {"pixels": t2(d["p"]), "pixels_from_end": d["e"]}
+    if op in ("trail1", "partrail", "sertrail"): return {"pixels": t2(d["p"])}
+    if op == "parfull": return {"shape_2d": tuple(d["sh"])}
+    return {"shape_2d": tuple(d["sh"]), "pixels": t2(d["p"])}
+
+# ----------------------------------------------------------------------------------------------- generators
+def pick(lst, i): return lst[i % len(lst)]
+def rand_region(rng, h, w):
+    y0 = rng.randint(0, h - 1); y1 = rng.randint(y0 + 1, h); x0 = rng.randint(0, w - 1); x1 = rng.randint(x0 + 1, w)
+    return [y0, y1, x0, x1]
+def rand_vals(rng, h, w, special):
+    if special == 0: return [[1 + y * w + x for x in range(w)] for y in range(h)]
+    if special == 1: return [[rng.randint(-3, 3) for _ in range(w)] for _ in range(h)]          # many ties / zeros
+    return [[enc(dec(rng.choice(SPECIALS))) if rng.random() < 0.5 else rng.randint(-99, 99) for _ in range(w)] for _ in range(h)]
+def rand_subop(rng, dim, n):
+    prs = [(a, b) for a in range(-1, 4) for b in range(-1, 4)]
+    p = list(rng.choice(prs)); e = rng.randint(-1, 4)
+    if dim == 1:
+        return rng.choice([{"op": "front1", "p": p, "e": None}, {"op": "front1", "p": None, "e": e}, {"op": "trail1", "p": p}])
+    return rng.choice([{"op": "parfront", "p": p, "e": None}, {"op": "parfront", "p": None, "e": e},
+                       {"op": "serfront", "p": p, "e": None}, {"op": "serfront", "p": None, "e": e},
+                       {"op": "partrail", "p": p}, {"op": "sertrail", "p": p},
+                       {"op": "parfull", "sh": [n, rng.randint(0, n + 2)]}, {"op": "serroe", "sh": [rng.randint(0, n + 2), n], "p": p}])
+
+def ahist_patterns(kind, r, r2, c2, v, v2):
+    rd = "util" if kind == "nd" else "prop"
+    sv = "direct" if kind == "nd" else "po"
+    cp = "copy"; d2 = "fortran" if kind == "nd" else "native"; d3 = "window" if kind == "nd" else "plus0"
+    one = [0, 1, 0, 1]
+    return [
+        [["read", rd], ["write", r, v, "region"], ["read", rd]],
+        [["read", rd], ["edit", r2, v], ["last"], ["read", rd]],
+        [["read", rd], ["derive", cp], ["write", r, v, "direct"], ["read", rd]],
+        [["read", rd], ["corner", c2], ["read", rd]],
+        [["read", "layout"], ["write", r, v, "direct"], ["last"], ["read", "layout"]],
+        [["slice", r, sv], ["write", r2, v, "region"], ["slice", r, sv], ["edit", one, v2], ["slice", r, "so"], ["read", rd]],
+        [["read", rd], ["write", r, v, "where"], ["read", rd]],
+        [["read", rd], ["read", rd], ["edit", r, v2], ["read", rd]],
+        [["write", r, v, "region"], ["read", rd], ["derive", d2], ["write", r2, v2, "direct"], ["read", rd], ["derive", d3], ["read", rd]],
+        [["read", "util"], ["write", r, v, "direct"], ["last"], ["read", "util"]],
+        [["read", rd], ["derive", "view"], ["write", r, v, "region"], ["read", rd]],
+        [["read", rd], ["edit", r2, v], ["derive", "deepcopy" if kind != "nd" else "tt"], ["read", rd], ["corner", c2],
+         ["write", r, v2, "direct"], ["read", rd]],
+        [["slice", r, sv], ["slice", r2, sv], ["slice", r, "so"], ["slice", r2, "so"], ["slice", r, sv]],
+    ]
+
+def gen_histories(tier, rng):
+    big = tier == "thorough"
+    # ---- systematic read -> edit -> re-read patterns on ONE array object
+    shapes = [(1, 1), (1, 3), (3, 1), (2, 3), (3, 2), (3, 4), (4, 3)] + ([(2, 2), (5, 2), (2, 5), (4, 6)] if big else [])
+    kinds = ["array2d", "nd", "no_mask.native"]
+    i = 0
+    for (h, w) in shapes:
+        regs = regions_2d(h, w)
+        m = [[1 + y * w + x for x in range(w)] for y in range(h)]
+        for ci, c in enumerate(CORNERS):
+            for kind in kinds:
+                for rep in range(1 if not big else 4):
+                    i += 1
+                    r = list(pick(regs, 7 * i + rep)); r2 = list(pick(regs, 3 * i + 1 + rep)); c2 = list(CORNERS[(ci + 1 + i % 3) % 4])
+                    v = -(10 + i % 7); v2 = "0.1" if i % 2 else 100 + i % 5
+                    for pi, steps in enumerate(ahist_patterns(kind, r, r2, c2, v, v2)):
+                        yield {"op": "ahist", "kind": kind, "m": m, "c": list(c), "steps": steps}
+    # ---- random histories on one array object
+    derive_a = ["copy", "copy.copy", "deepcopy", "plus0", "times1", "view", "with_new_array", "native", "slim.native", "ctor", "apply_mask"]
+    derive_n = ["copy", "view", "fortran", "window", "tt"]
+    for n in range(2500 if big else 350):
+        h, w = rng.randint(1, 6), rng.randint(1, 7)
+        kind = rng.choice(["array2d", "array2d", "nd", "no_mask.native", "sum"])
+        special = n % 3
+        inp = {"op": "ahist", "kind": kind, "m": rand_vals(rng, h, w, special), "c": list(rng.choice(CORNERS))}
+        masked = False
+        if kind in ("array2d", "sum") and rng.random() < 0.25 and special != 2:
+            inp["mask"] = [[rng.random() < 0.3 for _ in range(w)] for _ in range(h)]; masked = True
+        if kind == "nd" and special != 2 and rng.random() < 0.3: inp["dtype"] = "int"
+        isint = inp.get("dtype") == "int"
+        def val():
+            return rng.randint(-99, 99) if isint or rng.random() < 0.5 else enc(dec(rng.choice(SPECIALS)))
+        steps = []; lastshape = None
+        for _ in range(rng.randint(5, 12)):
+            k = rng.choice(["read", "read", "read", "write", "write", "edit", "last", "corner", "derive", "slice"])
+            if k == "read":
+                steps.append(["read", rng.choice(["prop", "prop", "layout", "util"])]); lastshape = (h, w)
+            elif k == "write":
+                r = rand_region(rng, h, w)
+                # a masked pixel has no defined content to write to (Array2D.native re-applies the mask): leave those alone
+                if masked and any(inp["mask"][y][x] for y in range(r[0], r[1]) for x in range(r[2], r[3])): continue
+                steps.append(["write", r, val(), rng.choice(["region", "direct", "where"])])
+            elif k == "edit" and lastshape:
+                steps.append(["edit", rand_region(rng, *lastshape), val()])
+            elif k == "last" and lastshape: steps.append(["last"])
+            elif k == "corner": steps.append(["corner", list(rng.choice(CORNERS))])
+            elif k == "derive": steps.append(["derive", rng.choice(derive_n if kind == "nd" else derive_a)])
+            elif k == "slice":
+                r = rand_region(rng, h, w)
+                steps.append(["slice", r, "direct" if masked else rng.choice(["po", "so", "direct"])]); lastshape = (r[1] - r[0], r[3] - r[2])
+        steps.append(["read", rng.choice(["prop", "layout", "util"])])
+        inp["steps"] = steps
+        yield inp
+    # ---- one Layout2D reused (systematic, then random)
+    i = 0
+    for (h, w) in [(2, 3), (3, 2), (3, 4)] + ([(4, 4), (5, 3)] if big else []):
+        regs = regions_2d(h, w)
+        m = [[1 + y * w + x for x in range(w)] for y in range(h)]
+        for ci, c in enumerate(CORNERS):
+            for rep in range(3 if not big else 8):
+                i += 1
+                c2 = list(CORNERS[(ci + 1 + i % 3) % 4]); cl = list(c)
+                rr = [list(pick(regs, 5 * i + j * 11 + rep)) for j in range(5)]
+                base = {"op": "lsess", "shape": [h, w], "c": list(pick(CORNERS, i)), "regions": rr[:3], "m": m, "store_native": bool(i % 2)}
+                pats = [
+                    [["rot", cl], ["rot", c2], ["rot", cl], ["classrot", c2], ["utilrot", 0, cl]],
+                    [["ext", rr[3]], ["ext", rr[4]], ["ext", rr[3]], ["ext", rr[4], "region"]],
+                    [["rot", cl], ["set", i % 3, rr[3]], ["rot", cl], ["set", (i + 1) % 3, None], ["rot", cl], ["ext", rr[4]]],
+                    [["rot", cl], ["shape", [h + 1 + i % 2, w + 2]], ["rot", cl], ["utilrot", 2, cl]],
+                    [["into_rot", cl], ["into_rot", cl], ["into_rot", c2], ["rot", c2], ["into_ext", rr[3]], ["rot", cl]],
+                    [["slice", 0], ["write", rr[4], -5], ["slice", 0], ["slice", 2], ["edit", [0, 1, 0, 1], "0.1"], ["slice", 2], ["slice", 0]],
+                    [["orient", "nd"], ["edit", rr[3], -9], ["orient", "nd"], ["corner", c2], ["orient", "arr"], ["edit", rr[4], 77],
+                     ["orient", "arr"], ["write", rr[3], "1e+300"], ["orient", "nd"]],
+                    [["regop", 0, {"op": "parfront", "p": None, "e": 1}], ["into_rot", cl], ["regop", 0, {"op": "serfront", "p": None, "e": 1}],
+                     ["regop", 0, {"op": "partrail", "p": [0, 2]}], ["regop", 2, {"op": "sertrail", "p": [1, 2]}], ["slice", 0]],
+                ]
+                pats.append([["slice", 0], ["set", 0, rr[3]], ["slice", 0], ["set", 2, rr[4]], ["slice", 2], ["slice", 0],
+                             ["set", 0, rr[4]], ["slice", 0]])
+                for steps in pats: yield dict(base, steps=steps)
+    for n in range(2000 if big else 220):
+        h, w = rng.randint(1, 6), rng.randint(1, 6)
+        regions = [rand_region(rng, h, w) if rng.random() < 0.75 else None for _ in range(3)]
+        inp = {"op": "lsess", "shape": [h, w], "c": list(rng.choice(CORNERS)), "regions": regions,
+               "m": rand_vals(rng, h, w, n % 3), "store_native": rng.random() < 0.5}
+        steps = []
+        for _ in range(rng.randint(6, 14)):
+            k = rng.choice(["rot", "rot", "into_rot", "classrot", "ext", "ext", "into_ext", "set", "shape", "corner", "slice", "slice",
+                            "orient", "edit", "write", "utilrot", "regop"])
+            if k in ("rot", "into_rot", "classrot"):
+                steps.append([k, list(rng.choice(CORNERS + ([(2, 0)] if rng.random() < 0.1 else [])))])
+            elif k in ("ext", "into_ext"): steps.append([k, rand_region(rng, h, w)] + (["region"] if rng.random() < 0.3 else []))
+            elif k == "set": steps.append(["set", rng.randint(0, 2), rand_region(rng, h, w) if rng.random() < 0.8 else None])
+            elif k == "shape": steps.append(["shape", [h + rng.randint(0, 2), w + rng.randint(0, 2)]])
+            elif k == "corner": steps.append(["corner", list(rng.choice(CORNERS))])
+            elif k == "slice": steps.append(["slice", rng.choice([0, 2])])
+            elif k == "orient": steps.append(["orient", rng.choice(["nd", "arr"])])
+            elif k == "edit": steps.append(["edit", rand_region(rng, h, w), rng.randint(-99, 99)])
+            elif k == "write": steps.append(["write", rand_region(rng, h, w), rng.choice([rng.randint(-99, 99), enc(dec(rng.choice(SPECIALS)))])])
+            elif k == "utilrot": steps.append(["utilrot", rng.randint(0, 2), list(rng.choice(CORNERS))])
+            elif k == "regop": steps.append(["regop", rng.randint(0, 2), rand_subop(rng, 2, max(h, w))])
+        inp["steps"] = steps
+        yield inp
+    # ---- one Region object reused: the same call before and after the user re-assigns reg.region (systematic)
+    n = 3
+    i = 0
+    for r in regions_2d(n, n):
+        for r2 in regions_2d(n, n):
+            if r2 == r or (i := i + 1) % (2 if big else 9): continue
+            for e in ((1, 2) if big else (1 + i % 2,)):
+                calls = [["call", {"op": "parfront", "p": None, "e": e}], ["call", {"op": "serfront", "p": None, "e": e}],
+                         ["call", {"op": "partrail", "p": [0, e]}], ["call", {"op": "sertrail", "p": [0, e]}]]
+                yield {"op": "rsess", "dim": 2, "r": list(r), "m": None, "steps": calls + [["setregion", list(r2)]] + calls + [["state"]]}
+    for r in regions_1d(n + 2):
+        for r2 in regions_1d(n + 2):
+            if r2 == r or (not big and (i := i + 1) % 3): continue
+            calls = [["call", {"op": "front1", "p": None, "e": 1}], ["call", {"op": "trail1", "p": [0, 2]}], ["call", {"op": "front1", "p": [0, 1], "e": None}]]
+            yield {"op": "rsess", "dim": 1, "r": list(r), "m": None, "steps": calls + [["setregion", list(r2)]] + calls + [["state"]]}
+    # ---- large coordinates (value range): every region-valued operation, python ints and numpy int64
+    for n in range(1500 if big else 320):
+        B = rng.choice([2 ** 15, 2 ** 16 + 1, 2 ** 31, 2 ** 32 + 5, 2 ** 33, 10 ** 12, 2 ** 40])
+        def big_region(H, W):
+            y0 = rng.randint(0, H - 1); y1 = rng.randint(y0 + 1, H); x0 = rng.randint(0, W - 1); x1 = rng.randint(x0 + 1, W)
+            if rng.random() < 0.4: y0 = rng.randint(0, 9); y1 = y0 + rng.randint(1, 9)        # small region in a huge frame
+            if rng.random() < 0.4: x0 = rng.randint(0, 9); x1 = x0 + rng.randint(1, 9)
+            if rng.random() < 0.3: y1 = H
+            if rng.random() < 0.3: x0 = 0
+            return [y0, y1, x0, x1]
+        H, W = B + rng.randint(0, 9), B // 2 + rng.randint(1, 9)
+        r = big_region(H, W); e = big_region(H, W); npint = bool(n % 2)
+        k = n % 4
+        if k == 0: yield {"op": "rotregion", "r": r, "s": [H, W], "c": list(rng.choice(CORNERS)), "via": rng.choice(["util", "rotated_from_roe_corner", "new_rotated_from"]), "npint": npint}
+        elif k == 1: yield {"op": "extract", "o": r, "e": e, "via": rng.choice(["util", "parallel_overscan", "serial_prescan", "serial_overscan"]), "shape": [H, W], "npint": npint}
+        elif k == 2:
+            if rng.random() < 0.5:      # touching / nested intervals at large offsets
+                e = [r[0] + rng.randint(-1, 1) if r[0] > 0 else 0, r[1] + rng.randint(0, 2), r[2], r[3] + rng.randint(0, 1)]
+                e[1] = max(e[1], e[0] + 1)
+            yield {"op": "extract", "o": r, "e": e, "via": "util", "shape": [H, W], "npint": npint}
+        else:
+            d = rand_subop(rng, 2, 3)
+            if d.get("e") is not None and rng.random() < 0.5: d["e"] = rng.randint(1, B)
+            if d.get("p") is not None and rng.random() < 0.5: d["p"] = [rng.randint(0, B), rng.randint(0, 2 * B)]
+            if "sh" in d: d["sh"] = [H, W]
+            yield {"op": "rsess", "dim": 2, "r": r, "m": None, "npint": npint,
+                   "steps": [["call", d], ["into", d], ["call", d], ["setregion", e], ["call", d], ["state"]]}
+    # ---- one Region object reused (random)
+    for n in range(2500 if big else 250):
+        dim = 1 if n % 4 == 0 else 2
+        h, w = rng.randint(1, 6), rng.randint(1, 7)
+        cur = rand_region(rng, h, w)
+        inp = {"op": "rsess", "dim": dim, "r": cur[2:] if dim == 1 else cur, "m": rand_vals(rng, h, w, n % 3)}
+        steps = []
+        if n % 5 == 0:                                  # the same call before and after the user re-assigns reg.region
+            a = rand_subop(rng, dim, max(h, w)); r2 = rand_region(rng, h, w)
+            steps = [["call", a], ["slice"], ["setregion", r2[2:] if dim == 1 else r2], ["call", a], ["slice"], ["state"]]
+        for _ in range(rng.randint(4, 10)):
+            k = rng.choice(["call", "call", "call", "into", "setregion", "slice", "state"])
+            if k in ("call", "into"): steps.append([k, rand_subop(rng, dim, max(h, w))])
+            elif k == "setregion":
+                r2 = rand_region(rng, h, w); steps.append(["setregion", r2[2:] if dim == 1 else r2])
+            else: steps.append([k])
+        inp["steps"] = steps
+        yield inp
